@@ -5,7 +5,6 @@ or rejected by `evalCnf`/`distinctB` (Lean, proved), INFEASIBLE is compared with
 sound and complete)."""
 from __future__ import annotations
 
-import copy
 import inspect
 import itertools
 import time
@@ -38,6 +37,14 @@ ASSUMPTIONS = [
     "Sat.solve; INFEASIBLE on such an input is the failure false_infeasible, returned assignments are checked by "
     "evalCnf as everywhere, and the CDCL mirror still runs on it (R_trace); the learned-clause entailment check "
     "(entailsB, <= 60 variables) does not apply there",
+    "family long_run (thorough tier: pigeonhole 9 into 8, also selector-relaxed under an assumption; the reference "
+    "DPLL would need minutes): 'unsatisfiable' is taken from the certifying CDCL mirror's INFEASIBLE, which is proved "
+    "sound for these inputs (cdcl_infeasible_sound_partial: no repeated literal in a clause, non-zero assumptions); "
+    "if the mirror ends otherwise the case is judged without a verdict",
+    "presentation of the input: clauses and assumptions are handed over as lists or tuples (the annotated contract "
+    "Sequence[Sequence[int]] / Sequence[int]; generators and other one-shot iterables are outside it and not used), "
+    "with the same list object at several positions in a fixed share of the cases; whether solve_sat leaves the "
+    "caller's lists untouched is not part of C01/C02 and is not checked",
     "MAX_ITER on a satisfiable input counts as a failure only for <= 16 variables with budgets >= the defaults "
     "(100000 conflicts / 10000 restarts), the DESIGN's decidable reading of 'budgets not exhausted'",
 ]
@@ -51,12 +58,17 @@ RULE = ("corpus + hand-written edge cases, then seeded families: random sample o
         "(solution_limit > 352, luby_factor 1/2: > 4000 learned clauses between the models) and planted threshold "
         "3-SAT with 250 variables / 1062 clauses (luby_factor 1/2, max_conflicts 30000) - the mirror's counter "
         "`reduce_db` says how often the clause database was actually reduced (histogram reduce_db_fired, "
-        "reduce_db_fired>=2:{enumeration,single}; such a case counts as non-trivial only if it was); assumptions none/random/contradictory/"
+        "reduce_db_fired>=2:{enumeration,single}; such a case counts as non-trivial only if it was); thorough tier only: 3 long-run UNSAT cases (pigeonhole 9 "
+        "into 8 with shuffled clause order, one of them selector-relaxed under an assumption: > 20000 conflicts in one call); 20 % of the "
+        "generated and small-scope cases in a non-plain presentation (histogram present:*): the same list object at "
+        "2-3 positions (duplicated next to itself, appended again, or by-value duplicates sharing one object), clauses "
+        "as tuples or tuples and lists mixed, the formula as a tuple, the assumptions as a tuple; assumptions none/random/contradictory/"
         "negated-pure-literal/variable-beyond-the-formula; solution_limit in {1,2,3,10,10^4}, luby_factor in {1,2,100}, "
         "max_conflicts/max_restarts default or tiny. Non-trivial = the CDCL mirror's run on the input made >= 1 decision "
         "and met >= 1 conflict; distinct by canonical (clauses, assumptions, options)")
 
 _DEFAULTS = None
+PRESENT_SHARE = 0.2  # share of the generated cases handed over in a non-plain presentation (see add_presentation)
 
 
 def defaults():
@@ -319,6 +331,81 @@ def reduce_db_cases(rng, n_enum, n_single):
     return [gen_reduce_db_enum(rng) for _ in range(n_enum)] + [gen_reduce_db_single(rng) for _ in range(n_single)]
 
 
+def add_presentation(rng, case):
+    """HOW the same formula is handed to solve_sat (the annotated contract is Sequence[Sequence[int]] / Sequence[int]):
+    the same list OBJECT at two or three positions (a clause duplicated with `*`, inserted or appended again; clauses
+    that are equal by value may share one object too), clauses as tuples / tuples and lists mixed, the formula as a
+    tuple, the assumptions as a tuple.  Duplicates are part of `clauses` by value (that is what the model gets);
+    `present` only says which positions share an object and which container types are used."""
+    cl = case["clauses"]
+    pr = {}
+    if cl and rng.random() < 0.7:
+        items = [(c, i) for i, c in enumerate(cl)]
+        if rng.random() < 0.4:  # clauses equal by value share one object
+            first = {}
+            items = [(c, first.setdefault(tuple(c), i)) for c, i in items]
+        for _ in range(rng.choice([0, 1, 1, 1, 2])):
+            long = [k for k, (c, _) in enumerate(items) if len(c) >= 3]
+            k = rng.choice(long) if long and rng.random() < 0.75 else rng.randrange(len(items))
+            c, t = items[k]
+            for _ in range(rng.choice([1, 1, 2])):
+                pos = rng.choice([k + 1, len(items), rng.randrange(len(items) + 1)])
+                items.insert(pos, (list(c), t))
+        case["clauses"] = [list(c) for c, _ in items]
+        by_tok = {}
+        for pos, (_, t) in enumerate(items):
+            by_tok.setdefault(t, []).append(pos)
+        groups = [g for g in by_tok.values() if len(g) >= 2]
+        if groups:
+            pr["alias"] = sorted(groups)
+    ct = rng.choice(["list", "list", "tuple", "mixed"])
+    if ct != "list":
+        pr["clause_type"] = ct
+    if rng.random() < 0.3:
+        pr["formula_type"] = "tuple"
+    if case["assumptions"] and rng.random() < 0.5:
+        pr["assumptions_type"] = "tuple"
+    if pr:
+        case["present"] = pr
+    return case
+
+
+def build_input(case):
+    """the objects actually passed to solve_sat: fresh lists, arranged as `present` says"""
+    pr = case.get("present") or {}
+    cl = [list(c) for c in case["clauses"]]
+    for grp in pr.get("alias", []):
+        for j in grp[1:]:
+            cl[j] = cl[grp[0]]
+    ct = pr.get("clause_type", "list")
+    if ct != "list":
+        conv = {}
+        for i, c in enumerate(cl):
+            if id(c) not in conv:  # one object, one type (decided at its first position)
+                conv[id(c)] = tuple(c) if (ct == "tuple" or i % 2 == 0) else c
+        cl = [conv[id(c)] for c in cl]
+    formula = tuple(cl) if pr.get("formula_type") == "tuple" else cl
+    asm = list(case["assumptions"])
+    if pr.get("assumptions_type") == "tuple":
+        asm = tuple(asm)
+    return formula, asm
+
+
+def gen_long_run(rng, k):
+    """thorough tier only: one call with > 4500 conflicts on an UNSATISFIABLE input (activities pass 1e100 there, the
+    restart counter passes 70): pigeonhole 9 into 8 in its natural numbering (72 variables, 297 clauses; ~21000
+    conflicts, ~10 s of Python - a random renaming makes it 3-5 times harder, so only the clause order is shuffled);
+    every third one relaxed by a selector variable and refuted under the assumption that switches the clauses on"""
+    cl = [list(c) for c in php(9, 8)]
+    rng.shuffle(cl)
+    asm = []
+    if k % 3 == 2:
+        cl = [c + [-73] for c in cl]
+        asm = [73]
+    return {"family": "long_run", "clauses": cl, "assumptions": asm,
+            "opts": {"luby_factor": rng.choice([1, 2])} if k % 3 == 1 else {}, "lite": True}
+
+
 def edge_cases():
     E = lambda cl, a=(), **o: {"family": "edge", "clauses": [list(c) for c in cl], "assumptions": list(a), "opts": o}  # noqa: E731
     yield E([])
@@ -366,8 +453,9 @@ def scope_cases(rng, nv, ncl, maxlen, per_formula, cap=None):
         forms = rng.sample(forms, cap)
     for f in forms:
         for _ in range(per_formula):
-            yield normalize({"family": f"scope{nv}x{ncl}", "clauses": f, "assumptions": _assumptions(rng, f, nv),
-                             "opts": _opts(rng)})
+            c = normalize({"family": f"scope{nv}x{ncl}", "clauses": f, "assumptions": _assumptions(rng, f, nv),
+                           "opts": _opts(rng)})
+            yield add_presentation(rng, c) if rng.random() < PRESENT_SHARE else c
 
 
 def normalize(case):
@@ -405,7 +493,8 @@ def generate(rng, n, tier, weights):
             out.append(gen_many_models(rng, thorough))
         else:
             raise KeyError(fam)
-    return [normalize(c) for c in out]
+    out = [normalize(c) for c in out]
+    return [add_presentation(rng, c) if rng.random() < PRESENT_SHARE else c for c in out]
 
 
 # ---------------------------------------------------------------------------
@@ -414,10 +503,10 @@ def generate(rng, n, tier, weights):
 
 def impl(case):
     from solvor.sat import solve_sat
-    cl = copy.deepcopy(case["clauses"])
+    cl, asm = build_input(case)
     kw = dict(case["opts"])
     if case["assumptions"]:
-        kw["assumptions"] = list(case["assumptions"])
+        kw["assumptions"] = asm
     t0 = time.time()
     r = solve_sat(cl, **kw)
     dt = time.time() - t0
@@ -432,7 +521,7 @@ def impl(case):
 
 
 def is_hard(case):
-    if case["family"].startswith("reduce_db"):
+    if case["family"].startswith("reduce_db") or case["family"] == "long_run":
         return True
     if case["opts"].get("solution_limit", 1) > 10 and n_vars(case) >= 10:
         return True
@@ -458,6 +547,8 @@ def run_impl(cases, ctx):
         degraded = st["confirmed"] >= 12
         if degraded:
             limit = 5.0 if hard else 1.0
+        if hard and not degraded and any(cases[i]["family"] == "long_run" for i in idx):
+            limit = 60.0  # ~10 s on an idle machine
         res = run_pool(impl, [cases[i] for i in idx], timeout=limit)
         for i, r in zip(idx, res):
             outs[i] = r
@@ -503,11 +594,21 @@ def judge(case, out, reply):
     fails, notes, tdiv = [], [], None
     wf, sat, nv, count, s_chk, m_chk, distinct, br, cf, stat_ok, mirror, wit_ok = reply
     how = "the proved reference DPLL finds a model of clauses + assumptions"
-    if sat is None:  # `lite` request (large planted instance): satisfiable iff evalCnf accepted the planted assignment
-        sat = True if any(wit_ok) else None
-        how = "the planted assignment is a model of the clauses (verified checker evalCnf)"
-        if sat is None:
-            raise core.Infra(f"lite request without a valid planted assignment: {case['family']}")
+    unsat_how = "proved DPLL verdict"
+    if sat is None:  # `lite` request (beyond the reference DPLL's reach)
+        if case.get("witness"):  # satisfiable iff evalCnf accepted the planted assignment
+            if any(wit_ok):
+                sat = True
+                how = "the planted assignment is a model of the clauses (verified checker evalCnf)"
+            else:  # only a shrinking candidate may lose its planted model; such a case is judged without a verdict
+                notes.append("planted_assignment_rejected")
+        elif mirror[0] == "INFEASIBLE":
+            # the certifying mirror's INFEASIBLE is proved sound for inputs without repeated literals
+            if any(len(set(c)) != len(c) for c in case["clauses"]) or 0 in case["assumptions"]:
+                raise core.Infra("lite request outside the hypotheses of cdcl_infeasible_sound_partial")
+            sat = False
+            unsat_how = ("the certifying CDCL mirror refuted them: INFEASIBLE after its unit-propagation refutation "
+                         "check, sound by cdcl_infeasible_sound_partial")
     if not stat_ok:
         raise core.Infra("instrumented DPLL disagrees with Sat.solve")
     if not wf:
@@ -521,7 +622,8 @@ def judge(case, out, reply):
     if out[0] == "timeout":
         fails.append(("C02", "no_return", f"no answer within {out[1]:.0f} s of wall clock (re-run alone included); "
                       + (f"the reference DPLL decides this input ({'sat' if sat else 'unsat'}) with {br} branchings"
-                         if not case.get("lite") else "the input has a planted model")))
+                         if not case.get("lite") else "the input has a planted model" if sat else
+                         "the CDCL mirror decides this input within its budgets")))
         return fails, notes, tdiv
     if out[0] != "ok":
         kind = err_kind(out)
@@ -555,9 +657,9 @@ def judge(case, out, reply):
     if st == "INFEASIBLE" and sat:
         fails.append(("C02", "false_infeasible" + (":assumptions" if asm else ""),
                       "INFEASIBLE although " + how))
-    if has_model and not sat:
+    if has_model and sat is False:
         fails.append(("C02", "model_for_unsat" + feature, "an assignment was returned although clauses + assumptions are "
-                      "unsatisfiable (proved DPLL verdict)"))
+                      f"unsatisfiable ({unsat_how})"))
     if st == "OPTIMAL" and not has_model:
         fails.append(("C02", "optimal_without_model", "status OPTIMAL with solution None"))
     if st == "INFEASIBLE" and has_model:
@@ -592,7 +694,7 @@ def judge(case, out, reply):
 
 
 def canon(case):
-    return [case["clauses"], case["assumptions"], sorted(case["opts"].items())]
+    return [case["clauses"], case["assumptions"], sorted(case["opts"].items()), sorted((case.get("present") or {}).items())]
 
 
 def run_cases(ctx, prop, cases, shrink=True):
@@ -610,7 +712,10 @@ def run_cases(ctx, prop, cases, shrink=True):
             ctx.count(n)
         ctx.count("family:" + c["family"])
         ctx.count("outcome:" + (o[1]["status"] if o[0] == "ok" else err_kind(o) if o[0] != "timeout_unconfirmed" else "Timeout?"))
-        ctx.count("truth:" + ("sat(planted)" if rp[1] is None else "sat" if rp[1] else "unsat"))
+        ctx.count("truth:" + (("sat(planted)" if c.get("witness") else "unsat(certified by the mirror)" if rp[10][0] == "INFEASIBLE"
+                               else "unknown") if rp[1] is None else "sat" if rp[1] else "unsat"))
+        for k, v in sorted((c.get("present") or {}).items()):
+            ctx.count(f"present:{k}" + ("" if k == "alias" else f"={v}"))
         for k in sorted(c["opts"]):
             ctx.count(f"opt:{k}={c['opts'][k]}")
         ctx.count("assumptions:" + ("yes" if c["assumptions"] else "no"))
@@ -693,15 +798,40 @@ def _reply_doc(rp, brief=False):
 def _candidates(case):
     cl, asm, opts = case["clauses"], case["assumptions"], case["opts"]
     keep = {k: case[k] for k in ("lite", "witness") if k in case}
-    mk = lambda c, a, o: {"family": case["family"], "clauses": c, "assumptions": a, "opts": o, **keep}  # noqa: E731
+    pr = case.get("present") or None
+
+    def mk(c, a, o, p=pr):
+        d = {"family": case["family"], "clauses": c, "assumptions": a, "opts": o, **keep}
+        if p and (p.get("alias") or any(k != "alias" for k in p)):
+            d["present"] = {k: v for k, v in p.items() if k != "alias" or v}
+        return d
+
+    def pr_drop(gone):  # the presentation after the clause positions in `gone` are removed
+        if not pr:
+            return None
+        m, k = {}, 0
+        for i in range(len(cl)):
+            if i not in gone:
+                m[i] = k
+                k += 1
+        groups = [[m[i] for i in g if i in m] for g in pr.get("alias", [])]
+        return {**pr, "alias": [g for g in groups if len(g) >= 2]}
+
+    if pr:  # plainer presentations first
+        yield mk(cl, asm, opts, None)
+        for k in pr:
+            if k != "alias":
+                yield mk(cl, asm, opts, {kk: v for kk, v in pr.items() if kk != k})
+        for g in pr.get("alias", []):
+            yield mk(cl, asm, opts, {**pr, "alias": [h for h in pr["alias"] if h != g]})
     if len(cl) > 200:  # large formula: drop blocks of clauses only (halves, quarters, ... sixteenths)
         for parts in (2, 4, 8, 16):
             w = -(-len(cl) // parts)
             for i in range(0, len(cl), w):
-                yield mk(cl[:i] + cl[i + w:], asm, opts)
+                yield mk(cl[:i] + cl[i + w:], asm, opts, pr_drop(set(range(i, i + w))))
         return
     for i in range(len(cl)):
-        yield mk(cl[:i] + cl[i + 1:], asm, opts)
+        yield mk(cl[:i] + cl[i + 1:], asm, opts, pr_drop({i}))
     for i in range(len(asm)):
         yield mk(cl, asm[:i] + asm[i + 1:], opts)
     for k in list(opts):
@@ -711,10 +841,12 @@ def _candidates(case):
     if opts.get("solution_limit", 1) > 3:
         yield mk(cl, asm, {**opts, "solution_limit": 3})
     if len(cl) <= 40:
+        group_of = {i: g for g in (pr or {}).get("alias", []) for i in g}
         for i, c in enumerate(cl):
-            if len(c) > 1:
+            members = group_of.get(i, [i])
+            if len(c) > 1 and i == members[0]:  # a literal leaves every position that shares the object
                 for j in range(len(c)):
-                    yield mk(cl[:i] + [c[:j] + c[j + 1:]] + cl[i + 1:], asm, opts)
+                    yield mk([c[:j] + c[j + 1:] if k in members else d for k, d in enumerate(cl)], asm, opts)
     # renumber: drop the largest variable index gap
     vs = sorted({abs(l) for c in cl for l in c} | {abs(a) for a in asm})
     if vs and vs != list(range(1, len(vs) + 1)):
@@ -777,6 +909,10 @@ def run_prop(ctx, prop, budget, weights, n_quick):
     t1 = time.time()
     run_cases(ctx, prop, reduce_db_cases(ctx.rng, n_enum, n_single))
     ctx.cov.setdefault("chunk_seconds", []).append(["reduce_db", n_enum + n_single, round(time.time() - t1, 1)])
+    if ctx.tier == "thorough" and not searching:
+        t1 = time.time()
+        run_cases(ctx, prop, [gen_long_run(ctx.rng, k) for k in range(3)])
+        ctx.cov.setdefault("chunk_seconds", []).append(["long_run", 3, round(time.time() - t1, 1)])
     if ctx.cov["histogram"].get("reduce_db_fired>=2:enumeration", 0) < 2 or ctx.cov["histogram"].get("reduce_db_fired>=2:single", 0) < 2:
         ctx.notes.append("reach: fewer than 2 enumeration / 2 single-solution inputs made the mirror reduce its clause "
                          "database twice in this run")
